@@ -48,6 +48,7 @@ class C07(Spec):
             'and on one promotes level, auto-IVC backed promoted inputs with src_shape / shared names / '
             'set_input_defaults also next to shape_by_conn inputs, inputs with units on unitless sources, 33 unit strings) x addressable names (absolute output, promoted output, absolute input, '
             'promoted auto-IVC name) x user indices (int, slice, array, tuple; negative entries) x unit strings x '
+            'src_indices chains with and without aliasing (an input reading one source entry twice) x '
             'histories of 4-10 set/get with final_setup and run_model interleaved; every history is also executed '
             'entirely before final_setup, after final_setup and after run_model')
     assumptions = ['sources addressed by the user are independent variables (IndepVarComp / auto-IVC), so run_model '
@@ -85,8 +86,9 @@ class C07(Spec):
             r = py_index(shape, rflat, ix)
             if r is None or not r[0]:
                 continue
-            if not user and len(set(r[0])) != len(r[0]):
-                continue      # aliasing src_indices (an input reading one source entry twice): see FINDINGS.md
+            if not user and len(set(r[0])) != len(r[0]) and rng.random() < 0.5:
+                continue      # aliasing src_indices (an input reading one source entry twice) are kept half
+                              # of the time: the model writes back level by level (last alias wins)
             if not user and where != 'connect' and fl is True and ix['t'] == 'slice' and len(shape) > 1 \
                     and ix['v'][0] is None and ix['v'][1] is None and ix['v'][2] in (None, 1):
                 continue      # such a model cannot be set up: known finding of C04 (props/C04/FINDINGS.md, 2)
@@ -225,8 +227,12 @@ class C07(Spec):
                 vals = [rng.randrange(-20, 21)] if scalar else [rng.randrange(-20, 21) for _ in range(size)]
                 hist.append(dict(base, op='set', vals=vals, vshape=vshape, scalar=scalar))
                 if rng.random() < 0.75:
-                    pos = chain_eval(s['shape'], n['chain'] + ([level] if level else []))[0]
-                    echo = (vals * size if scalar else vals) if len(set(pos)) == len(pos) else None
+                    # the round trip is promised when no level reads an entry twice
+                    shp, nodup = list(s['shape']), True
+                    for lv in n['chain'] + ([level] if level else []):
+                        sel, shp = py_index(shp, lv['rflat'], lv['ix'])
+                        nodup = nodup and len(set(sel)) == len(sel)
+                    echo = (vals * size if scalar else vals) if nodup else None
                     hist.append(dict(base, op='get', echo=echo))
             else:
                 hist.append(dict(base, op='get', echo=None))
@@ -250,10 +256,10 @@ class C07(Spec):
         ops = []
         for o in case['history']:
             if o['op'] == 'final':
-                ops.append('HFinal')
+                ops.append('OFinal')
                 continue
             if o['op'] == 'run':
-                ops.append('HRun')
+                ops.append('ORun')
                 continue
             n = names[o['name']]
             s = srcs[n['src']]
@@ -268,9 +274,9 @@ class C07(Spec):
             if o['op'] == 'set':
                 size = prod(o['vshape'])
                 vals = o['vals'] * size if o['scalar'] else o['vals']
-                ops.append('(HSet (%d) %s %s %s %s %s)' % (vid[n['src']], zlist(s['shape']), cterm, ua, us, qlist(vals)))
+                ops.append('(OSet (%d) %s %s %s %s %s)' % (vid[n['src']], zlist(s['shape']), cterm, ua, us, qlist(vals)))
             else:
-                ops.append('(HGet (%d) %s %s %s %s)' % (vid[n['src']], zlist(s['shape']), cterm, us, ua))
+                ops.append('(OGet (%d) %s %s %s %s)' % (vid[n['src']], zlist(s['shape']), cterm, us, ua))
         return '(run_case %s [%s])' % (init, '; '.join(ops))
 
     def shrink(self, c):
